@@ -316,6 +316,26 @@ def check_white(case):
         require_close(main, as_mat, '%s: sigma_k vector vs the same diagonal matrix' % m,
                       'value:%s:vector' % m, rtol=0, atol=2 * atol)
     laws(case, m, main, (rtol, atol))
+    if sigma is not None:
+        # the result is a function of the values of sigma_k, not of the array object: update
+        # one array in place between two calls (as a fitting loop re-using its buffer would)
+        skobj = np.array(sigma, dtype=float)
+        a, b = np.array(case['v1'], dtype=float), np.array(case['v2'], dtype=float)
+        lib(C.compare, a, b, method=m, sigma_k=skobj, on_error='violation',
+            sig='raises:compare:' + m)
+        other = np.array(U.permute_sigma(sigma, case['perm']), dtype=float)
+        if sk == 'matrix':
+            other = other + np.eye(n) * float(np.max(np.abs(other)))
+        else:
+            other = other * np.arange(1, n + 1)
+        skobj[...] = other
+        again = lib(C.compare, a, b, method=m, sigma_k=skobj, on_error='violation',
+                    sig='raises:compare:' + m)
+        fresh = call(m, case['v1'], case['v2'], other.tolist())
+        rt2, at2 = white_tol(other.tolist(), n)
+        require_close(again, fresh, '%s after updating the sigma_k array in place vs a fresh array '
+                      'with the same values' % m, 'value:%s:sigma-object-reused' % m,
+                      rtol=rt2, atol=2 * at2)
 
 
 def classify_white(case):
